@@ -562,6 +562,8 @@ Fixpoint dec_next (fuel : nat) (d : cdecoder) (s : sink) : res (cdecoder * sink 
       match fill with
       | inr e => Ok (d, s, if isnil e then eEOF else e)
       | inl d1 =>
+          (* a Read that returned (0, nil): read again, nothing is fed *)
+          if zlen (d_buf d1) =? 0 then dec_next f d1 s else
           match feed_until (feed_fuel (d_buf d1)) (d_p d1) s (d_buf d1) with
           | Ok (SR p1 s1 rest done err) =>
               let d2 := {| d_p := p1; d_buf := rest; d_script := d_script d1; d_bytesdec := d_bytesdec d1 |} in
